@@ -2490,8 +2490,9 @@ impl CanonicalizeContext {
 							if  following_siblings.is_empty() {
 								return true;
 							}
+							// if an operand or an open fence follows, the '*' is an infix operator; otherwise (e.g., "a* + b") it is a script
 							let first_child = as_element(following_siblings[0]);
-							return name(&first_child) != "mo" || ["(", "[", "{"].contains(&text);
+							return name(&first_child) == "mo" && !["(", "[", "{"].contains(&as_text(first_child));
 						} else {
 							return true;
 						}
